@@ -67,7 +67,8 @@ RecVerdict(j, L, r) ==
                            ELSE IF ~Preserves(r.f, {basis[x] : x \in 1..Len(basis)}) THEN "driver-error:not-sector-conserving"
                            ELSE IF ~(GaussMatrix(A) /\ GaussMatrix(B)) THEN "off-carrier"
                            ELSE IF ~SpectrumContained(A, B) THEN "spectrum-violated"
-                           ELSE IF EntrywiseEqual(A, img, r.nq, TRUE) THEN "ok" ELSE "ok-entrywise-differs"
+                           ELSE IF EntrywiseEqual(A, img, r.nq, TRUE) \/ EntrywiseEqual(Transposed(A), img, r.nq, TRUE)
+                                THEN "ok" ELSE "ok-entrywise-differs"
     [] OTHER -> "malformed"
 
 JobDone(j) ==
